@@ -71,11 +71,12 @@ func (cc *CheckCtx) runScore40(match string, withCuts bool) {
 		}
 		fr := w.RunFunc("40", "(*CVSS40).Score", RunOpts{ConcreteRet: map[string][]Value{"(CVSS40).macroVector": rv}})
 		if fr.Err != "" {
-			cc.ToolErr = append(cc.ToolErr, key+"[mv="+mvLabel(e)+"]: "+fr.Err)
+			cc.funcErr("40", "(*CVSS40).Score", "[mv="+mvLabel(e)+"] "+fr.Err)
 			return
 		}
 		runs = append(runs, mvRun{E: e, Fr: fr})
 	}
+	cc.noteWarn(runs[0].Fr)
 	for k := range runs[0].Fr.VC.Inlined {
 		cc.Inlined[k] = true
 	}
